@@ -255,7 +255,11 @@ func genSess(c *corr.Ctx, i int) *Scenario {
 			if c.Rng.IntN(10) < 6 {
 				port = base + c.Rng.IntN(4)
 			}
-			sc.Ops = append(sc.Ops, Op{K: "xdgram", Chan: ch, IP: hexIP(g.ips[ipIdx]), Port: port, Media: c.Rng.IntN(2)})
+			z := g.zones[ipIdx]
+			if c.Rng.IntN(6) == 0 {
+				z = []string{"", "eth0", "eth1"}[c.Rng.IntN(3)]
+			}
+			sc.Ops = append(sc.Ops, Op{K: "xdgram", Chan: ch, IP: hexIP(g.ips[ipIdx]), Zone: z, Port: port, Media: c.Rng.IntN(2)})
 		case r < 19:
 			sc.Ops = append(sc.Ops, Op{K: "xclose", Conn: c.Rng.IntN(g.nextCid)})
 		default: // a request without / with an unknown session id from a fresh connection
